@@ -1,6 +1,7 @@
 package main
 
 import (
+	"sync"
 	"fmt"
 	"go/token"
 	"go/types"
@@ -48,6 +49,7 @@ type Prog struct {
 
 	nFiles int
 	nCanon int // operand pairs reordered by canonicaliseOperands
+	alias  *aliasTable // pinned identifier -> identifier in this tree (renamed unexported objects)
 }
 
 func goEnv(goarch string) []string {
@@ -123,6 +125,14 @@ func Load(repoDir, goarch string, overlay map[string][]byte) (p *Prog, err error
 	}
 	if len(p.Pkgs) != len(scopePkgPaths) {
 		return nil, infraError{fmt.Sprintf("expected %d packages, loaded %d", len(scopePkgPaths), len(p.Pkgs))}
+	}
+	if os.Getenv("SONICSA_NOALIAS") == "" {
+		if pinned := loadPinnedSymtab(); pinned != nil {
+			p.alias = resolveRenames(pinned, collectSymbols(p.Pkgs))
+			for _, pkg := range p.Pkgs {
+				aliasByPkg.Store(pkg.Types, p.alias)
+			}
+		}
 	}
 	prog, ssaPkgs := ssautil.AllPackages(pkgs, ssa.InstantiateGenerics)
 	prog.Build()
@@ -224,3 +234,16 @@ func (p *Prog) Pos(pos token.Pos) string {
 
 // moduleUsesRecover: some in-scope function calls recover() (then the synthetic recover blocks are live code).
 var moduleUsesRecover bool
+
+// aliasByPkg: *types.Package -> *aliasTable of the program the package was loaded for (recvTypeName and fnName have no Prog).
+var aliasByPkg sync.Map
+
+func aliasFor(pk *types.Package) *aliasTable {
+	if pk == nil {
+		return nil
+	}
+	if v, ok := aliasByPkg.Load(pk); ok {
+		return v.(*aliasTable)
+	}
+	return nil
+}
